@@ -193,9 +193,7 @@ def pep440(schema, v):
         out += ".dev%d" % dev
     if local:
         out += "+" + ".".join(local)
-    for p in local:
-        if p.isdigit() and int(p) > U32:
-            notes.append("above-u32")
+    # numeric local parts have no limit: zerv keeps one above u32 as its digits (since 35b8d11), so they are judged like any other part
     return out, notes
 
 
